@@ -254,6 +254,11 @@ def e2_checks(pid, tier, seed):
             out.append(e2e('e2e_s%d_b%d_two' % (s_, b_), s_, b_, ['close', 'open_min'], (1, 1, 0), 2 if q else 3))
         out.append(e2e('e2e_list1_content', 0, 1, ['list1'], (0, 0, 1), 2, sym_content=2 if q else 4))
         out.append(e2e('e2e_list_noise2', 1, 2, ['list1', 'close'], (2, 0, 1), 1))
+        # non-blocking io::Read: WouldBlock / Interrupted between bytes, the caller just calls next() again
+        f1b = list(lib['close'].b); f2b = list(lib['open_min'].b)
+        for k_ in ((0, 5, 21) if q else (0, 1, 5, 8, 13, 21, 28, 36, 40)):
+            F = 2
+            out.append(spec('e2e_nb_at%d' % k_, 'chk_e2e_nb', [k_ + F] + [0] * k_ + S(F) + [len(f1b) & 0xff, len(f1b) >> 8] + f1b + f2b, 'two files over a non-blocking io::Read: after %d delivered bytes, %d symbolic script entries over {byte, WouldBlock, Interrupted}; next::<File>() is retried on WouldBlock' % (k_, F), must_cover=[101]))
         if not q:
             out.append(e2e('e2e_three_msgs', 2, 0, ['file3', 'list_vals_misc'], (1, 1, 1), 3))
     elif pid in ('C04', 'C09', 'C13', 'C06', 'C03'):
